@@ -117,12 +117,12 @@ theorem sysOk_prefix {s s' : State} {o : List Output} (p : List Output) (hp : s1
   exact h
 
 theorem tinv_onMessage (cfg : Cfg) (hck : cfg.commackGate = true ∨ cfg.commackReq = 0) (s : State) (tr : List Obs)
-    (sf f : Nat) (w : Bool) (sys : Nat) (ck : Option Nat) (h : TInv cfg s tr) (hl : s.link = true) :
+    (sf f : Nat) (w : Bool) (sys : Nat) (ck : Option Nat) (h : TInv cfg s tr) (hl : s.selected = true) (hcn : s.connected = true) :
     TInv cfg (onMessage cfg s sf f w sys ck).1 (tr ++ [⟨.rx sf f w sys ck, (onMessage cfg s sf f w sys ck).2⟩]) := by
   have hup : isUp tr = true := h.link ▸ hl
   have stay : ∀ o : List Output, s1f13Ids o = [] → TInv cfg s (tr ++ [⟨.rx sf f w sys ck, o⟩]) := by
     intro o ho
-    refine tinv_plain cfg s s tr _ o h (by simp) (by simp) rfl (Or.inl ⟨rfl, rfl, ho⟩) ?_
+    refine tinv_plain cfg s s tr _ o h (by simp) (by simp) (by simp) rfl rfl (Or.inl ⟨rfl, rfl, ho⟩) ?_
     intro hcomm
     exact just_extend _ (h.just hcomm) (by simp) (by simp)
   unfold onMessage
@@ -142,7 +142,7 @@ theorem tinv_onMessage (cfg : Cfg) (hck : cfg.commackGate = true ∨ cfg.commack
           rcases hck with hg' | h0
           · simpa [hg'] using hg
           · exact h0
-        refine tinv_plain cfg s _ tr _ _ h (by simp) (by simp) (perform_link _ _)
+        refine tinv_plain cfg s _ tr _ _ h (by simp) (by simp) (by simp) (perform_connected _ _) (perform_selected _ _)
           (sysOk_prefix _ (by simp [s1f13Ids]) (perform_sys _ _)) ?_
         intro _
         refine just_new _ hup (Or.inl ⟨w, sys, ck, rfl, ?_⟩)
@@ -158,14 +158,14 @@ theorem tinv_onMessage (cfg : Cfg) (hck : cfg.commackGate = true ∨ cfg.commack
           split
           · exact stay [] rfl
           · -- COMMACK 0
-            refine tinv_plain cfg s _ tr _ _ h (by simp) (by simp) (perform_link _ _) (perform_sys _ _) ?_
+            refine tinv_plain cfg s _ tr _ _ h (by simp) (by simp) (by simp) (perform_connected _ _) (perform_selected _ _) (perform_sys _ _) ?_
             intro _
             refine just_new _ hup (Or.inr ⟨w, sys, rfl, ?_⟩)
             intro hs
             have : s.mySys = some sys := by simpa [hs] using hsys
-            exact h.myUp hs hl sys this
+            exact h.myUp hs hcn sys this
           · -- COMMACK ≠ 0
-            refine tinv_plain cfg s _ tr _ _ h (by simp) (by simp) (perform_link _ _) (perform_sys _ _) ?_
+            refine tinv_plain cfg s _ tr _ _ h (by simp) (by simp) (by simp) (perform_connected _ _) (perform_selected _ _) (perform_sys _ _) ?_
             intro hcomm
             have := perform_comm_stays s _ (by simp) (by simp) hcomm
             exact just_extend _ (h.just this.1) (by simp) (by simp)
@@ -176,37 +176,44 @@ theorem tinv_onMessage (cfg : Cfg) (hck : cfg.commackGate = true ∨ cfg.commack
         · exact stay [] rfl
 
 theorem tinv_perform_plain (cfg : Cfg) (s s0 : State) (tr : List Obs) (i : Input) (t : Trans) (hc : s.comm = s0.comm)
-    (hlk : s.link = s0.link) (hm : s.mySys = s0.mySys) (hq : s.queued = s0.queued) (h : TInv cfg s tr)
+    (hcn : s.connected = s0.connected) (hlk : s.selected = s0.selected) (hm : s.mySys = s0.mySys) (hq : s.queued = s0.queued)
+    (h : TInv cfg s tr) (hi0 : i ≠ .linkConnected)
     (hi1 : i ≠ .linkSelected) (hi2 : i ≠ .linkLost) (hi3 : i ≠ .disable)
     (ht1 : t ≠ .s1f14received) (ht2 : t ≠ .s1f13received) :
     TInv cfg (perform s0 t).1 (tr ++ [⟨i, (perform s0 t).2⟩]) := by
   have hs : SysOk s (perform s0 t).1 (perform s0 t).2 := by
     have := perform_sys s0 t
     unfold SysOk at *
-    rw [hm, hq, hlk]; exact this
-  refine tinv_plain cfg s _ tr i _ h hi1 hi2 (by rw [perform_link, hlk]) hs ?_
+    rw [hm, hq, hcn]; exact this
+  refine tinv_plain cfg s _ tr i _ h hi0 hi1 hi2 (by rw [perform_connected, hcn]) (by rw [perform_selected, hlk]) hs ?_
   intro hcomm
   have := perform_comm_stays s0 t ht1 ht2 hcomm
   exact just_extend _ (h.just (hc ▸ this.1)) hi2 hi3
 
-theorem tinv_select (cfg : Cfg) (s s0 : State) (hs0 : s0 = { s with link := true, queued := [] }) (tr : List Obs)
-    (hc : CInv s) (h : TInv cfg s tr) (hl : s.link = false) :
+theorem tinv_select (cfg : Cfg) (s s0 : State) (hs0 : s0 = { s with connected := true, selected := true, queued := [] }) (tr : List Obs)
+    (hc : CInv s) (h : TInv cfg s tr) (hl : s.selected = false) :
     TInv cfg (perform s0 .select).1 (tr ++ [⟨.linkSelected, s.queued.map Output.txS1F13 ++ (perform s0 .select).2⟩]) := by
-  have hd : (linkState tr).1 = false := by have := h.link; rw [hl] at this; exact this.symm
+  have hcn : (linkState tr).connected = s.connected := h.conn.symm
   have hst : linkState (tr ++ [⟨.linkSelected, s.queued.map Output.txS1F13 ++ (perform s0 .select).2⟩])
-      = (true, s.queued ++ s1f13Ids (perform s0 .select).2) := by
-    rw [linkState_snoc]; simp [obsStep, hd, s1f13Ids_append, s1f13Ids_map]
-  have hl0 : s0.link = true := by rw [hs0]
-  refine ⟨?_, ?_, ?_, ?_⟩
+      = ⟨true, true, (if s.connected then (linkState tr).ids else []) ++ (s.queued ++ s1f13Ids (perform s0 .select).2)⟩ := by
+    rw [linkState_snoc]; simp [obsStep, hcn, s1f13Ids_append, s1f13Ids_map]
+  have hc0 : s0.connected = true := by rw [hs0]
+  have hl0 : s0.selected = true := by rw [hs0]
+  refine ⟨?_, ?_, ?_, ?_, ?_⟩
+  · simp [isConn, hst, hc0]
   · simp [isUp, hst, hl0]
   · intro hs _ k hk
     simp only [onLink, hst]
     rcases perform_sys s0 .select with ⟨h1, _, _⟩ | ⟨k', h1, ⟨_, h3, _⟩ | ⟨h2, _, _⟩⟩
     · rw [h1, hs0] at hk
-      exact List.mem_append_left _ (h.myDown hs hl k hk)
+      by_cases hsc : s.connected = true
+      · simp only [hsc, if_true]
+        exact List.mem_append_left _ (h.myUp hs hsc k hk)
+      · have hsc' : s.connected = false := by simpa using hsc
+        exact List.mem_append_right _ (List.mem_append_left _ (h.myDown hs hsc' k hk))
     · rw [h1] at hk; cases hk; simp [h3]
-    · simp [hl0] at h2
-  · intro _ hl'; simp [hl0] at hl'
+    · simp [hc0] at h2
+  · intro _ hl'; simp [hc0] at hl'
   · intro hcomm
     have := perform_comm_stays s0 _ (by simp) (by simp) hcomm
     have h2 : s.comm = .communicating := by have := this.1; rw [hs0] at this; exact this
@@ -215,46 +222,86 @@ theorem tinv_select (cfg : Cfg) (s s0 : State) (hs0 : s0 = { s with link := true
 
 theorem tinv_step (cfg : Cfg) (hck : cfg.commackGate = true ∨ cfg.commackReq = 0) (s : State) (tr : List Obs) (i : Input)
     (hc : CInv s) (h : TInv cfg s tr) : TInv cfg (step cfg s i).1 (tr ++ [⟨i, (step cfg s i).2⟩]) := by
-  have stay : ∀ i : Input, i ≠ .linkSelected → i ≠ .linkLost → i ≠ .disable → TInv cfg s (tr ++ [⟨i, []⟩]) := by
-    intro i h1 h2 h3
-    refine tinv_plain cfg s s tr _ [] h h1 h2 rfl (sysOk_refl s) ?_
+  have stay : ∀ i : Input, i ≠ .linkConnected → i ≠ .linkSelected → i ≠ .linkLost → i ≠ .disable → TInv cfg s (tr ++ [⟨i, []⟩]) := by
+    intro i h0 h1 h2 h3
+    refine tinv_plain cfg s s tr _ [] h h0 h1 h2 rfl rfl (sysOk_refl s) ?_
     intro hcomm
     exact just_extend _ (h.just hcomm) h2 h3
   cases i with
   | enable =>
     simp only [step]
-    exact tinv_perform_plain cfg s s tr _ _ rfl rfl rfl rfl h (by simp) (by simp) (by simp) (by simp) (by simp)
+    exact tinv_perform_plain cfg s s tr _ _ rfl rfl rfl rfl rfl h (by simp) (by simp) (by simp) (by simp) (by simp) (by simp)
   | disable =>
     simp only [step]
-    refine tinv_plain cfg s _ tr _ _ h (by simp) (by simp) (perform_link _ _) (perform_sys _ _) ?_
+    refine tinv_plain cfg s _ tr _ _ h (by simp) (by simp) (by simp) (perform_connected _ _) (perform_selected _ _) (perform_sys _ _) ?_
     intro hcomm
     have := perform_comm_stays s _ (by simp) (by simp) hcomm
     simp at this
   | t3Expired =>
     simp only [step]
     split
-    · exact stay _ (by simp) (by simp) (by simp)
-    · exact tinv_perform_plain cfg s _ tr _ _ rfl rfl rfl rfl h (by simp) (by simp) (by simp) (by simp) (by simp)
+    · exact stay _ (by simp) (by simp) (by simp) (by simp)
+    · exact tinv_perform_plain cfg s _ tr _ _ rfl rfl rfl rfl rfl h (by simp) (by simp) (by simp) (by simp) (by simp) (by simp)
   | delayExpired =>
     simp only [step]
     split
-    · exact stay _ (by simp) (by simp) (by simp)
-    · exact tinv_perform_plain cfg s _ tr _ _ rfl rfl rfl rfl h (by simp) (by simp) (by simp) (by simp) (by simp)
+    · exact stay _ (by simp) (by simp) (by simp) (by simp)
+    · exact tinv_perform_plain cfg s _ tr _ _ rfl rfl rfl rfl rfl h (by simp) (by simp) (by simp) (by simp) (by simp) (by simp)
   | rx sf f w sys ck =>
     simp only [step]
     split
-    · exact stay _ (by simp) (by simp) (by simp)
+    · exact stay _ (by simp) (by simp) (by simp) (by simp)
     · rename_i hl
-      exact tinv_onMessage cfg hck s tr sf f w sys ck h (by simpa using hl)
+      have hl : s.selected = true := by simpa using hl
+      exact tinv_onMessage cfg hck s tr sf f w sys ck h hl (hc.sc hl)
+  | linkConnected =>
+    simp only [step]
+    split
+    · -- a connection exists already: nothing happens
+      rename_i hcn
+      have hu : (linkState tr).connected = true := by have := h.conn; rw [hcn] at this; exact this.symm
+      have hst : linkState (tr ++ [⟨.linkConnected, []⟩]) = linkState tr := by
+        rw [linkState_snoc]
+        have : linkState tr = ⟨(linkState tr).connected, (linkState tr).selected, (linkState tr).ids⟩ := rfl
+        rw [this]; simp [obsStep, hu, s1f13Ids]
+      refine ⟨?_, ?_, ?_, ?_, ?_⟩
+      · simp [isConn, hst]; exact h.conn
+      · simp [isUp, hst]; exact h.link
+      · intro hs hl' k hk; simp only [onLink, hst]; exact h.myUp hs hl' k hk
+      · intro hs hl' k hk; exact h.myDown hs hl' k hk
+      · intro hcomm; exact just_extend _ (h.just hcomm) (by simp) (by simp)
+    · -- the connection comes up: the send queue is written
+      rename_i hcn
+      have hcn : s.connected = false := by simpa using hcn
+      have hd : (linkState tr).connected = false := by have := h.conn; rw [hcn] at this; exact this.symm
+      have hsl : s.selected = false := by
+        cases hsel : s.selected with
+        | false => rfl
+        | true => have := hc.sc hsel; simp [hcn] at this
+      have hst : linkState (tr ++ [⟨.linkConnected, s.queued.map Output.txS1F13⟩]) = ⟨true, false, s.queued⟩ := by
+        rw [linkState_snoc]; simp [obsStep, hd, s1f13Ids_map]
+      refine ⟨?_, ?_, ?_, ?_, ?_⟩
+      · simp [isConn, hst]
+      · simp [isUp, hst, hsl]
+      · intro hs _ k hk
+        simp only [onLink, hst]
+        exact h.myDown hs hcn k hk
+      · intro _ hl'; simp at hl'
+      · intro hcomm; exact just_extend _ (h.just hcomm) (by simp) (by simp)
   | linkSelected =>
     simp only [step]
     split
     · -- already selected: a further Select.req changes nothing
       rename_i hl
-      have hu : (linkState tr).1 = true := by have := h.link; rw [hl] at this; exact this.symm
+      have hcn : s.connected = true := hc.sc hl
+      have hu : (linkState tr).connected = true := by have := h.conn; rw [hcn] at this; exact this.symm
+      have hsl : (linkState tr).selected = true := by have := h.link; rw [hl] at this; exact this.symm
       have hst : linkState (tr ++ [⟨.linkSelected, []⟩]) = linkState tr := by
-        rw [linkState_snoc]; apply Prod.ext <;> simp [obsStep, hu, s1f13Ids]
-      refine ⟨?_, ?_, ?_, ?_⟩
+        rw [linkState_snoc]
+        have : linkState tr = ⟨(linkState tr).connected, (linkState tr).selected, (linkState tr).ids⟩ := rfl
+        rw [this]; simp [obsStep, hu, hsl, s1f13Ids]
+      refine ⟨?_, ?_, ?_, ?_, ?_⟩
+      · simp [isConn, hst]; exact h.conn
       · simp [isUp, hst]; exact h.link
       · intro hs hl' k hk; simp only [onLink, hst]; exact h.myUp hs hl' k hk
       · intro hs hl' k hk; exact h.myDown hs hl' k hk
@@ -265,27 +312,34 @@ theorem tinv_step (cfg : Cfg) (hck : cfg.commackGate = true ∨ cfg.commackReq =
   | linkLost =>
     simp only [step]
     split
-    · -- the link is already down
+    · -- there is no connection
       rename_i hl
-      have hl : s.link = false := by simpa using hl
-      have hst : linkState (tr ++ [⟨.linkLost, []⟩]) = (false, []) := by
+      have hl : s.connected = false := by simpa using hl
+      have hsl : s.selected = false := by
+        cases hsel : s.selected with
+        | false => rfl
+        | true => have := hc.sc hsel; simp [hl] at this
+      have hst : linkState (tr ++ [⟨.linkLost, []⟩]) = ⟨false, false, []⟩ := by
         rw [linkState_snoc]; simp [obsStep]
-      refine ⟨?_, ?_, ?_, ?_⟩
-      · simp [isUp, hst, hl]
+      refine ⟨?_, ?_, ?_, ?_, ?_⟩
+      · simp [isConn, hst, hl]
+      · simp [isUp, hst, hsl]
       · intro _ hl'; simp [hl] at hl'
       · intro hs hl' k hk; exact h.myDown hs hl' k hk
-      · intro hcomm; have := hc.up hcomm; simp [hl] at this
+      · intro hcomm; have := hc.up hcomm; simp [hsl] at this
     · simp only [hooked_disc, forwards, lossStates, Bool.true_and]
-      generalize hs0 : ({ s with link := false, mySys := if cfg.sysChecked = true then none else s.mySys } : State) = s0
+      generalize hs0 : ({ s with connected := false, selected := false, mySys := if cfg.sysChecked = true then none else s.mySys } : State) = s0
       have hs0c : s0.comm = s.comm := by rw [← hs0]
-      have hs0l : s0.link = false := by rw [← hs0]
-      have key : ∀ (s' : State) (o : List Output), s'.link = false → SysOk s0 s' o → s'.comm ≠ .communicating →
+      have hs0l : s0.connected = false := by rw [← hs0]
+      have hs0s : s0.selected = false := by rw [← hs0]
+      have key : ∀ (s' : State) (o : List Output), s'.connected = false → s'.selected = false → SysOk s0 s' o → s'.comm ≠ .communicating →
           TInv cfg s' (tr ++ [⟨.linkLost, o⟩]) := by
-        intro s' o hl' hsys hn
-        have hst : linkState (tr ++ [⟨.linkLost, o⟩]) = (false, []) := by
+        intro s' o hl' hsl' hsys hn
+        have hst : linkState (tr ++ [⟨.linkLost, o⟩]) = ⟨false, false, []⟩ := by
           rw [linkState_snoc]; simp [obsStep]
-        refine ⟨?_, ?_, ?_, ?_⟩
-        · simp [isUp, hst, hl']
+        refine ⟨?_, ?_, ?_, ?_, ?_⟩
+        · simp [isConn, hst, hl']
+        · simp [isUp, hst, hsl']
         · intro _ hl''; simp [hl'] at hl''
         · intro hs _ k hk
           have hm0 : s0.mySys = none := by rw [← hs0]; simp [hs]
@@ -297,10 +351,10 @@ theorem tinv_step (cfg : Cfg) (hck : cfg.commackGate = true ∨ cfg.commackReq =
       split
       · rename_i hcm
         have hcm : s.comm = .communicating := by simpa [← hs0] using hcm
-        refine key _ _ (by rw [perform_link, hs0l]) (perform_sys _ _) ?_
+        refine key _ _ (by rw [perform_connected, hs0l]) (by rw [perform_selected, hs0s]) (perform_sys _ _) ?_
         rw [perform_comm, hs0c, hcm]; simp [allowed]
       · rename_i hcm
-        refine key _ _ hs0l (sysOk_refl _) ?_
+        refine key _ _ hs0l hs0s (sysOk_refl _) ?_
         simpa [← hs0] using hcm
 
 theorem tinv_runFrom (cfg : Cfg) (hck : cfg.commackGate = true ∨ cfg.commackReq = 0) (is : List Input) :
@@ -320,7 +374,7 @@ theorem perform_outputs (s : State) (t : Trans) (o : Output) (h : o ∈ (perform
     (o = .evtCommunicating ∧ (perform s t).1.comm = .communicating ∧ s.comm ≠ .communicating) := by
   rw [perform_eq] at h ⊢
   obtain ⟨c, cn, l, a, b, n, m, q⟩ := s
-  cases c <;> cases t <;> cases l <;>
+  cases c <;> cases t <;> cases cn <;>
     simp_all [allowed, leaveEffects_eq, enterEffects_eq, sendS1F13]
 
 end SecsModel.Proofs.GemComm
